@@ -26,8 +26,13 @@ use std::{
     any::Any,
     fmt,
     ops::{Deref, DerefMut},
-    sync::{Arc, Mutex, MutexGuard, PoisonError, TryLockError},
+    sync::{Mutex, MutexGuard, PoisonError, TryLockError},
 };
+
+#[cfg(deadpool_verif)]
+use deadpool_runtime::verif::Arc;
+#[cfg(not(deadpool_verif))]
+use std::sync::Arc;
 
 use deadpool_runtime::{Runtime, SpawnBlockingError};
 
